@@ -49,7 +49,10 @@ fn c03_layout_independence() {
       for n in ["notes.txt", "blk.dat", "xblk00000.dat", "00007.dat", "blk00000.dat.bak", "rev00000.dat", "blkblk1.dat", "blk00001.dat.dat"] {
           std::fs::write(d.path().join(n), foreign[0].ser()).unwrap();
       }
-      cmp_delivery(suite, "C03:foreign_keys_and_files_are_ignored", "unindexed blocks, keys f/l/F/R/a/c, foreign files", fetch_all(&d, "bitcoin", 6, false), &want); }
+      std::fs::create_dir(d.path().join("blk99999.dat")).unwrap();                                         // a directory with a blk name
+      let _ = std::os::unix::fs::symlink(d.path().join("gone-target"), d.path().join("stale-link"));        // dangling symlink
+      let _ = std::os::unix::fs::symlink(d.path().join("notes.txt"), d.path().join("link-to-notes"));      // healthy symlink to a foreign file
+      cmp_delivery(suite, "C03:foreign_keys_and_files_are_ignored", "unindexed blocks, keys f/l/F/R/a/c, foreign files, a directory named blk99999.dat, dangling and healthy symlinks", fetch_all(&d, "bitcoin", 6, false), &want); }
     // (d) wide varints: file numbers / offsets / heights that need 2..5 varint bytes (heights up to millions)
     { cases += 1; let mut d = DataDir::new();
       let base_h = 3_000_000u64;
@@ -99,19 +102,27 @@ fn c04_competitor_records() {
       let n = got.as_ref().map(|v| v.iter().filter(|e| matches!(e, Event::Block(..))).count()).unwrap_or(0);
       cases += 1;
       check(n == 5, suite, "C04:header_only_records_beyond_tip_do_not_extend_the_run", "header-only record at height 9 beyond tip 4", &format!("{} blocks delivered ({:?})", n, got.as_ref().err()), "5 blocks"); }
-    // stale sibling with data whose hash sorts AFTER the active block's hash (known finding) and BEFORE it
-    for later in [false, true] {
+    // stale sibling with data whose hash sorts AFTER the active block's hash (known finding) and BEFORE it; never-connected
+    // (validity 3) and once-active reorged-out (same status as the active block)
+    for later in [false, true] { for status in [3u64 | 8, ST_ACTIVE] {
         cases += 1;
         let mut d = simple_dir(&chain);
         let mut stale = BlockSpec::new(chain[1].hash(), 777, vec![TxSpec::new(vec![TxIn::coinbase(777)], vec![TxOut::new(1, vec![0x51])])]);
         // grind the nonce until the stale hash sorts as wanted relative to the active block 2
         loop { let s = stale.hash(); if (s > chain[2].hash()) == later { break; } stale.nonce += 1; }
         let off = d.put_block(0, 0xd9b4bef9, &stale.ser(), &[]);
-        d.recs.push(IndexRec { hash: stale.hash(), version: 1, height: 2, status: 3 | 8, ntx: 1, file: 0, offset: off });
+        d.recs.push(IndexRec { hash: stale.hash(), version: 1, height: 2, status, ntx: 1, file: 0, offset: off });
         d.write();
         let c = if later { "C04:active_chain_only/stale_sibling_with_data_sorting_later" } else { "C04:active_chain_only/stale_sibling_with_data_sorting_earlier" };
-        cmp_delivery(suite, c, &format!("stale sibling with data at height 2, hash sorts {} the active one", if later { "after" } else { "before" }), fetch_all(&d, "bitcoin", 5, false), &want);
-    }
+        cmp_delivery(suite, c, &format!("stale sibling with data at height 2 (status {}), hash sorts {} the active one", status, if later { "after" } else { "before" }), fetch_all(&d, "bitcoin", 5, false), &want);
+        if later {
+            // with --verify the non-linking sequence must never be delivered silently: the run fails at height 2 or 3
+            cases += 1;
+            let r = fetch(d.path(), "bitcoin", 1, None, true, &[1, 2, 3]);
+            let silent = matches!(&r, Ok(v) if v.iter().all(|x| matches!(x, Ok(Some(_)))));
+            check(!silent, suite, "C04:verify_never_delivers_a_non_linking_sequence", &format!("stale sibling with data at height 2 (status {}) sorting after the active one, --verify", status), "heights 1..3 delivered without error", "an error at height 2 or 3");
+        }
+    } }
     finish(suite, cases);
 }
 
@@ -237,6 +248,7 @@ fn c11_xor_directories() {
     let mut rng = Rng::new(11);
     let mut keys: Vec<Vec<u8>> = (1..=9).map(|n| rng.bytes(n)).collect();
     keys.push(rng.bytes(16)); keys.push(rng.bytes(64)); keys.push(vec![0u8; 8]); keys.push(vec![0xff]);
+    keys.push(vec![0x5a, 0x5a]); keys.push(vec![0xde, 0xad, 0xbe, 0xef, 0xde, 0xad, 0xbe, 0xef]); keys.push(vec![1, 2, 3]); keys.push(vec![0x11, 0x22, 0x33, 0x44, 0x55, 0x66, 0x77, 0x00]);
     let mut cases = 0;
     for k in keys { for layout in 0..2 {
         cases += 1;
@@ -304,6 +316,12 @@ fn c17_open_files_bounded() {
                     check(maxh > h, suite, "C17:open_files_all_hold_a_block_yet_to_come", &format!("{} after height {}", what, h), &format!("{} still open, its highest block is {}", fname, maxh), "closed");
                 }
             }
+            // files that were closed are needed again (earlier heights re-read, out of order): transparently reopened
+            if !verify { for h in [last, s_eff, (s_eff + last) / 2, s_eff] {
+                cases += 1;
+                let ok = matches!(st.get_block(h), Ok(Some(b)) if b.header.hash.to_byte_array() == chain[h as usize].hash());
+                check(ok, suite, "C17:reopened_file_delivers_the_right_block", &format!("{} re-reading height {} after the forward pass", what, h), "error or other block", "block h");
+            } }
         } }
     }
     finish(suite, cases);
